@@ -12,7 +12,8 @@ EXTENDS Chain
 Tot(S, k)  == IF Has(S.eacct, k) THEN S.eacct[k].balance + S.eacct[k].transferred ELSE 0
 Got(S, l)  == IF Has(S.epay, l) THEN S.epay[l].balance + S.epay[l].withdrawn ELSE 0
 Wd(S, l)   == IF Has(S.epay, l) THEN S.epay[l].withdrawn ELSE 0
-IsTx(R)    == R.act.act # "NextBlock"
+KeeperActs == {"KAccountCreate", "KDeposit", "KSettle", "KAccountClose", "KPaymentCreate", "KPaymentWithdraw", "KPaymentClose"}
+IsTx(R)    == R.act.act \notin ({"NextBlock"} \cup KeeperActs)
 ActDid(a)  == DId(a.t, a.d)
 DeploymentActs == {"CreateDeployment", "DepositDeployment", "UpdateDeployment", "CloseDeployment", "CloseGroup",
                    "PauseGroup", "StartGroup", "CreateBid", "CloseBid", "WithdrawLease", "CreateLease", "CloseLease"}
@@ -45,8 +46,8 @@ TransferredMatchesCredits(S) ==
 MeteringExact(S) ==
   \A l \in DOMAIN S.epay :
      (S.epay[l].state = "open" /\ Has(S.eacct, S.epay[l].acct) /\ S.eacct[S.epay[l].acct].state = "open")
-     => /\ Has(S.lease, l)
-        /\ Got(S, l) = S.epay[l].rate * (S.eacct[S.epay[l].acct].settledAt - S.lease[l].createdAt)
+     => /\ Got(S, l) = S.epay[l].rate * (S.eacct[S.epay[l].acct].settledAt - S.epay[l].createdAt)
+        /\ Has(S.lease, l) => S.lease[l].createdAt = S.epay[l].createdAt
         /\ S.eacct[S.epay[l].acct].settledAt <= S.height
 
 \* a payee is credited only while its payment is open, and at most price x (blocks since the last settlement)
@@ -55,6 +56,7 @@ StepNoOvercharge(R) ==
      LET gain == Got(R.post, l) - Got(R.pre, l) IN
      /\ gain >= 0
      /\ gain > 0 => /\ Has(R.pre.epay, l) /\ R.pre.epay[l].state = "open"
+                    /\ Has(R.pre.lease, l) => R.pre.lease[l].state = "active"     \* only blocks during which the lease was open
                     /\ Has(R.pre.eacct, R.pre.epay[l].acct)
                     /\ gain <= R.pre.epay[l].rate * (R.post.height - R.pre.eacct[R.pre.epay[l].acct].settledAt)
      /\ Has(R.pre.epay, l) => R.post.epay[l].rate = R.pre.epay[l].rate /\ R.post.epay[l].owner = R.pre.epay[l].owner
@@ -64,6 +66,8 @@ DepositIn(R, k) ==
   ELSE CASE R.act.act = "CreateDeployment" /\ k = DAcc(ActDid(R.act)) -> R.act.deposit
          [] R.act.act = "DepositDeployment" /\ k = DAcc(ActDid(R.act)) -> R.act.amount
          [] R.act.act = "CreateBid" /\ k = BAcc(BId(R.act.t, R.act.d, R.act.g, R.act.o, R.act.p)) -> R.act.deposit
+         [] R.act.act = "KAccountCreate" /\ k = DAcc(ActDid(R.act)) -> R.act.deposit
+         [] R.act.act = "KDeposit" /\ k = DAcc(ActDid(R.act)) -> R.act.amount
          [] OTHER -> 0
 
 \* balance + transferred grows only by deposits; transferred never shrinks  (=> never transfers more than deposited)
@@ -127,6 +131,11 @@ CloseTakesEffect(R) ==
     CASE a.act = "CloseDeployment" ->
            /\ post.eacct[DAcc(ActDid(a))].state # "open"
            /\ \A l \in AcctPays(post, DAcc(ActDid(a))) : post.epay[l].state # "open"
+      [] a.act = "KAccountClose" ->
+           /\ post.eacct[DAcc(ActDid(a))].state # "open"
+           /\ \A l \in AcctPays(post, DAcc(ActDid(a))) : post.epay[l].state # "open"
+      [] a.act = "KPaymentClose" ->
+           LET l == BId(a.t, a.d, a.g, a.o, a.p) IN post.epay[l].state # "open"
       [] a.act = "CloseLease" ->
            LET l == BId(a.t, a.d, a.g, a.o, a.p) IN Has(post.epay, l) => post.epay[l].state # "open"
       [] a.act = "CloseBid" ->
@@ -186,7 +195,7 @@ FrameOK(R) ==
   /\ a.act = "NextBlock" => post = [pre EXCEPT !.height = post.height]
   /\ a.act # "NextBlock" => post.height = pre.height
   /\ \A x \in (DOMAIN pre.bank) \ {ESCROW} : post.bank[x] < pre.bank[x] => x = RequiredSigner(a)
-  /\ a.act \in DeploymentActs =>
+  /\ a.act \in (DeploymentActs \cup KeeperActs) =>
         /\ Changed(pre.dep, post.dep) \subseteq {ActDid(a)}
         /\ \A k \in Changed(pre.grp, post.grp)     : RecD(pre.grp, post.grp, k) = ActDid(a)
         /\ \A k \in Changed(pre.ord, post.ord)     : RecD(pre.ord, post.ord, k) = ActDid(a)
